@@ -53,7 +53,7 @@ MC_CONFIGS = {
     "rollout_lost_t": mc("MC_rollout", "Spec", env=1, edit=1, ann=0, kinds='{"lost", "fail", "dup"}'),
     # migration from a DaemonSet: every node starts with a ready pod of the old DaemonSet (OldDS <- MC_OldDS)
     "rollout_migr_q": mc("MC_rollout", "Spec", env=0, edit=1, ann=1, oldds=True),
-    "rollout_migr_t": mc("MC_rollout", "Spec", strat="MC_Strat2", env=1, edit=1, ann=0, oldds=True),
+    "rollout_migr_t": mc("MC_rollout", "Spec", env=1, edit=1, ann=0, kinds='{"unready", "fail"}', oldds=True),   # (MC_Strat2 + all kinds: 5.2 M states, 23 min)
     "canary_manual_q": mc("MC_canary", "SpecCanary", strat="MC_StratManual", env=0, edit=1, ann=1, agecap=1),
 }
 
